@@ -15,6 +15,7 @@ import (
 	"time"
 
 	"github.com/notaryproject/notation-core-go/revocation"
+	corecrl "github.com/notaryproject/notation-core-go/revocation/crl"
 	revocsp "github.com/notaryproject/notation-core-go/revocation/ocsp"
 	"github.com/notaryproject/notation-core-go/revocation/purpose"
 	"github.com/notaryproject/notation-core-go/revocation/result"
@@ -364,6 +365,7 @@ func checkOCSPRequest(r netsim.Request, cert, issuer *pki.Cert, configured []str
 }
 
 type c04Scenario struct {
+	withCRL   bool // the certificate also names a distribution point that serves a clean CRL (a Revoked OCSP answer must stay final)
 	issuerKey string
 	serial    string
 	nURL      int
@@ -381,7 +383,11 @@ func (s *c04Scenario) world() *ocspWorld {
 		for i := 0; i < s.nURL; i++ {
 			urls = append(urls, fmt.Sprintf("http://r%d.ocsp.test/ocsp", urlLabel[i])) // names not monotone in the position
 		}
-		s.w = newOCSPWorld(s.issuerKey, s.serial, urls, nil)
+		var crls []string
+		if s.withCRL {
+			crls = []string{"http://crl.c04.test/clean"}
+		}
+		s.w = newOCSPWorld(s.issuerKey, s.serial, urls, crls)
 	})
 	return s.w
 }
@@ -399,6 +405,12 @@ func c04Scenarios(tier mc.Tier) []mc.Scenario {
 						s.bound = 2
 						if s.free {
 							s.bound = -1
+						}
+						if entry == "validate" && serial == "short" && n <= 2 {
+							// the same scenario with a clean CRL distribution point in the certificate
+							s2 := &c04Scenario{issuerKey: ik, serial: serial, nURL: n, withTime: wt, entry: entry, withCRL: true, free: true, bound: -1}
+							out = append(out, mc.Scenario{Name: fmt.Sprintf("C04-%s-%s-urls%d-time%v-%s-with-clean-crl", kindOf(ik), serial, n, wt, entry), Bound: -1, Body: s2.body,
+								Params: map[string]string{"issuer": ik, "serial": serial, "urls": fmt.Sprint(n), "signingTime": fmt.Sprint(wt), "entry": entry, "cleanCRLDistributionPoint": "true"}})
 						}
 						sc := mc.Scenario{
 							Name:   fmt.Sprintf("C04-%s-%s-urls%d-time%v-%s", kindOf(ik), serial, n, wt, entry),
@@ -424,8 +436,13 @@ func (s *c04Scenario) body(c *mc.Ctx) {
 	}
 	contacted := map[int]*ocspBehaviour{}
 	var order []int
+	crlFetched := false
 	tr := &netsim.Transport{}
 	tr.Handler = func(r *netsim.Request, raw *http.Request) netsim.Answer {
+		if raw.URL.Host == "crl.c04.test" {
+			crlFetched = true
+			return netsim.Answer{Status: 200, Body: pki.ForgeCRL(pki.CRLSpec{Issuer: w.root, Number: 3, NextUpdate: pki.Now.Add(24 * time.Hour)})}
+		}
 		if raw.URL.Host == "redirected.ocsp.test" {
 			g := c04Behaviours[1] // good/issuer
 			return w.answer(&g)
@@ -459,7 +476,8 @@ func (s *c04Scenario) body(c *mc.Ctx) {
 	var err error
 	switch s.entry {
 	case "validate":
-		v, e := revocation.NewWithOptions(revocation.Options{OCSPHTTPClient: tr.Client(), CertChainPurpose: purpose.CodeSigning})
+		hf, _ := corecrl.NewHTTPFetcher(tr.Client())
+		v, e := revocation.NewWithOptions(revocation.Options{OCSPHTTPClient: tr.Client(), CRLFetcher: hf, CertChainPurpose: purpose.CodeSigning})
 		if e != nil {
 			panic(mc.HarnessError{Msg: e.Error()})
 		}
@@ -493,6 +511,11 @@ func (s *c04Scenario) body(c *mc.Ctx) {
 			return "no-responder-contacted"
 		}
 		return "decisive=" + names[len(names)-1]
+	}
+	if s.withCRL && crlFetched && !anyOK && !anyRevNE && !anyRevEv {
+		// OCSP was inconclusive and the clean CRL was consulted: its verdict (OK) is CRL evidence, outside this property
+		c.Outcome("verdict-by-crl-fallback:" + verdict.String())
+		return
 	}
 	if !anyDC {
 		if (verdict == result.ResultOK || verdict == result.ResultNonRevokable) && !anyOK {
